@@ -156,6 +156,20 @@ def replay_hooks():
                     return (f"expand({doc!r}, template_fn=<returns a marker for a>, post_template_fn=<records>)", True, f"post_template_fn was called for {[n for n, _ in posts]}, expected ['a']: it must see the expansion template_fn supplied")
                 if len(posts) > len(calls):
                     return (f"expand({doc!r}, {kwt}) with recording hooks", True, f"post_template_fn called {len(posts)} times, template_fn {len(calls)} times")
+    # an unselected call inside a selected template / an enabled parser function stays a call *as text* at every stage: the
+    # hooks and the enclosing parser function must see the text, not an internal placeholder
+    from wikitextprocessor.common import MAGIC_FIRST
+
+    seen = []
+    w.add_page("Template:outer", 10, "A{{a|q|k=v}}B")
+    w.start_page("T")
+    out = w.expand("{{outer}}", pre_expand=True, templates_to_expand={"outer"}, post_template_fn=lambda n, ht, exp: seen.append(exp))
+    if any(ord(ch) >= MAGIC_FIRST for e in seen for ch in e) or seen != ["A{{a|q|k=v}}B"] or out != "A{{a|q|k=v}}B":
+        return ("Template:outer = 'A{{a|q|k=v}}B': expand('{{outer}}', pre_expand=True, templates_to_expand={'outer'}, post_template_fn=<records>)", True, f"post_template_fn saw {seen!r}, result {out!r}; expected the default expansion 'A{{{{a|q|k=v}}}}B' with the unselected call as text")
+    w.start_page("T")
+    out = w.expand("{{lc:X{{a|Q}}Y}}", pre_expand=True, templates_to_expand={"zzz"})
+    if out != "x{{a|q}}y":
+        return ("expand('{{lc:X{{a|Q}}Y}}', pre_expand=True, templates_to_expand={'zzz'})", True, f"result {out!r}: the unselected call inside the parser function's argument must stay a call (expected 'x{{{{a|q}}}}y')")
     return ("hook replay catalogue", False, "")
 
 
